@@ -458,7 +458,7 @@ func (z *ZodSet[T, R]) validateDirect(value, schema any, ctx *core.ParseContext)
 	}
 
 	args := []reflect.Value{reflect.ValueOf(value)}
-	if mt.NumIn() > 1 && mt.In(1).String() == "*core.ParseContext" {
+	if acceptsParseContext(mt) {
 		args = append(args, reflect.ValueOf(ctx))
 	}
 
